@@ -183,6 +183,27 @@ def _migrate_csv_to_rules(csv_file: str, config_dir: str, backup: bool = True,
         return False
 
 
+def _report_unloadable_rules(merchants_file: str) -> bool:
+    """Say so (on stderr) when a .rules file cannot be loaded.
+
+    get_all_rules() and get_transforms() swallow the parse error and carry on as if the
+    file held no rules, so without this every transaction silently becomes Unknown.
+    Returns True when the file could not be loaded.
+    """
+    if not merchants_file or not merchants_file.endswith('.rules') or not os.path.exists(merchants_file):
+        return False
+    from pathlib import Path
+    from .merchant_engine import load_merchants_file
+    try:
+        load_merchants_file(Path(merchants_file))
+        return False
+    except Exception as e:
+        print(f"Error: {merchants_file} could not be loaded - {e}", file=sys.stderr)
+        print("       None of its rules are in force: transactions will be categorized as Unknown "
+              "until the file is fixed.", file=sys.stderr)
+        return True
+
+
 def _check_merchant_migration(config: dict, config_dir: str, quiet: bool = False, migrate: bool = False,
                               settings_file: str = 'settings.yaml') -> list:
     """
@@ -269,6 +290,7 @@ def _check_merchant_migration(config: dict, config_dir: str, quiet: bool = False
 
     # New .rules format
     if merchants_format == 'new':
+        _report_unloadable_rules(merchants_file)
         rules = get_all_rules(merchants_file, match_mode=rule_mode)
         if not quiet:
             print(f"Loaded {len(rules)} categorization rules from {merchants_file}")
